@@ -334,9 +334,181 @@ Definition run_gen (fx : bool) (ops : list op) : obs := run_from fx mock0 0%N op
 Definition run : list op -> obs := run_gen true.        (* the code as it is now *)
 Definition run_old : list op -> obs := run_gen false.   (* before the repair *)
 
-(* ---------------------------------------------------------------- step-1 sanity oracle (replaced by the real spec in C08_Spec) *)
-Definition want_count (ops : list op) : nat :=
-  length (filter (fun o => match o with OCall _ _ true => true | _ => false end) ops).
-Definition spec0 (ops : list op) (o : obs) : bool :=
-  Nat.leb (length (o_rets o)) (want_count ops) &&
-  match o_fail o with Some (i, _) => (i <? N.of_nat (length ops))%N | None => true end.
+(* ================================================================ the property, model-free (no flags, no candidate lists)
+   Judged scenarios ("canonical"): [strictOrder] [ignoreOtherCalls] expectations* actual-calls* checkExpectations, no parameter name
+   twice in one actual call, no ignoreOtherParameters.  In this fragment a call matches an expectation iff same function and the
+   same set of (parameter name, value) -- every expectation set is unambiguous in the sense of the property (a call determines
+   the class of expectations it can consume), so no further hypothesis is needed; with ignoreOtherParameters that fails and such
+   scenarios are not judged (checked for model = implementation only). *)
+Definition sexp : Type := N * name * list (name * pv) * option pv.      (* count, function, parameters, return value *)
+Definition scall : Type := name * list (name * pv) * bool.              (* function, parameters, return value asked *)
+Definition sx_n (e : sexp) : N := fst (fst (fst e)).
+Definition sx_f (e : sexp) : name := snd (fst (fst e)).
+Definition sx_ps (e : sexp) : list (name * pv) := snd (fst e).
+Definition sx_ret (e : sexp) : option pv := snd e.
+Definition sc_f (c : scall) : name := fst (fst c).
+Definition sc_ps (c : scall) : list (name * pv) := snd (fst c).
+Definition sc_want (c : scall) : bool := snd c.
+
+Record canon := { k_strict : bool; k_ignore : bool; k_exps : list sexp; k_calls : list scall }.
+
+Fixpoint parse_calls (ops : list op) : option (list scall) :=
+  match ops with
+  | [OCheck] => Some []
+  | OCall f ps w :: r => match parse_calls r with Some l => Some ((f, ps, w) :: l) | None => None end
+  | _ => None
+  end.
+Fixpoint parse_exps (ops : list op) : option (list sexp * list scall) :=
+  match ops with
+  | OExpect n f ps ret false :: r => match parse_exps r with Some (es, cs) => Some ((n, f, ps, ret) :: es, cs) | None => None end
+  | _ => match parse_calls ops with Some cs => Some ([], cs) | None => None end
+  end.
+Definition parse (ops : list op) : option canon :=
+  let (st, ops) := match ops with OStrict :: r => (true, r) | _ => (false, ops) end in
+  let (ig, ops) := match ops with OIgnoreOtherCalls :: r => (true, r) | _ => (false, ops) end in
+  match parse_exps ops with
+  | Some (es, cs) => Some {| k_strict := st; k_ignore := ig; k_exps := es; k_calls := cs |}
+  | None => None
+  end.
+
+Fixpoint nodup_names (l : list name) : bool :=
+  match l with [] => true | x :: r => negb (existsb (N.eqb x) r) && nodup_names r end.
+Definition judged (k : canon) : bool := forallb (fun c => nodup_names (map fst (sc_ps c))) (k_calls k).
+
+(* a parameter list contains (n, v): the first parameter named n has an equal value (getValueByName takes the first) *)
+Definition lookup (n : name) (ps : list (name * pv)) : option pv :=
+  match find (fun x => (fst x =? n)%N) ps with Some x => Some (snd x) | None => None end.
+Definition has_pv (ps : list (name * pv)) (x : name * pv) : bool :=
+  match lookup (fst x) ps with Some v => veq v (snd x) | None => false end.
+(* the call (f, ps) is exactly what expectation e describes: same function, every passed parameter is expected with that value,
+   every expected parameter was passed *)
+Definition matches (e : sexp) (f : name) (ps : list (name * pv)) : bool :=
+  (sx_f e =? f)%N && forallb (has_pv (sx_ps e)) ps && forallb (fun q => existsb (fun x => (fst x =? fst q)%N) ps) (sx_ps e).
+(* two calls have the same shape *)
+Definition same_call (c d : scall) : bool :=
+  (sc_f c =? sc_f d)%N && forallb (has_pv (sc_ps d)) (sc_ps c) && forallb (has_pv (sc_ps c)) (sc_ps d).
+
+(* calls that ignoreOtherCalls swallows never reach the matching *)
+Definition ignored (k : canon) (c : scall) : bool := k_ignore k && negb (existsb (fun e => (sx_f e =? sc_f c)%N) (k_exps k)).
+Definition checked_calls (k : canon) : list scall := filter (fun c => negb (ignored k c)) (k_calls k).
+
+(* --- verdict clause: multiset of actual calls = multiset of expected calls expanded by their counts (keyed by call shape) *)
+Definition count_calls (c : scall) (cs : list scall) : N := N.of_nat (length (filter (same_call c) cs)).
+Definition capacity (es : list sexp) (c : scall) : N :=
+  fold_right (fun e a => if matches e (sc_f c) (sc_ps c) then (sx_n e + a)%N else a) 0%N es.
+Definition multiset_ok (es : list sexp) (cs : list scall) : bool :=
+  forallb (fun c => (count_calls c cs =? capacity es c)%N) cs &&
+  forallb (fun e => (sx_n e =? 0)%N || existsb (fun c => matches e (sc_f c) (sc_ps c)) cs) es.
+(* strict order: the k-th call is what the k-th expected call (expectations repeated by their counts, in order) describes *)
+Fixpoint expand (es : list sexp) : list sexp :=
+  match es with [] => [] | e :: r => repeat e (N.to_nat (sx_n e)) ++ expand r end.
+Fixpoint seq_ok (xs : list sexp) (cs : list scall) : bool :=
+  match xs, cs with
+  | [], [] => true
+  | e :: xr, c :: cr => matches e (sc_f c) (sc_ps c) && seq_ok xr cr
+  | _, _ => false
+  end.
+Definition verdict_ok (k : canon) : bool :=
+  if k_strict k then seq_ok (expand (k_exps k)) (checked_calls k) else multiset_ok (k_exps k) (checked_calls k).
+
+(* --- diagnosis and return-value clauses: the reference semantics M.  Remaining capacities only. *)
+Record mexp := { x_e : sexp; x_left : N; x_done : N; x_lo : N; x_hi : N; x_ooo : bool }.
+Definition x_open (x : mexp) : bool := (0 <? x_left x)%N.
+Fixpoint init_m (strict : bool) (from : N) (es : list sexp) : list mexp :=
+  match es with
+  | [] => []
+  | e :: r => {| x_e := e; x_left := sx_n e; x_done := 0; x_lo := if strict then (from + 1)%N else 0%N;
+                 x_hi := if strict then (from + sx_n e)%N else 0%N; x_ooo := false |} :: init_m strict (from + sx_n e)%N r
+  end.
+(* the first open expectation that is exactly the call is consumed *)
+Fixpoint consume (f : name) (ps : list (name * pv)) (order : N) (xs : list mexp) : option (list mexp * option pv) :=
+  match xs with
+  | [] => None
+  | x :: r =>
+      if x_open x && matches (x_e x) f ps then
+        let ooo := if negb (x_lo x =? 0)%N && ((order <? x_lo x)%N || (x_hi x <? order)%N) then true else x_ooo x in
+        Some ({| x_e := x_e x; x_left := (x_left x - 1)%N; x_done := (x_done x + 1)%N; x_lo := x_lo x; x_hi := x_hi x; x_ooo := ooo |} :: r,
+              sx_ret (x_e x))
+      else match consume f ps order r with Some (r', v) => Some (x :: r', v) | None => None end
+  end.
+(* why a call that cannot be consumed deviates: (kind, deferred) -- a missing parameter only shows when the call is finished,
+   i.e. at the next operation unless the return value is asked for at once *)
+Definition agrees_upto (e : sexp) (ps : list (name * pv)) : bool := forallb (has_pv (sx_ps e)) ps.
+Fixpoint first_dead (f : name) (xs : list mexp) (seen rest : list (name * pv)) : option name :=
+  match rest with
+  | [] => None
+  | p :: r => if existsb (fun x => x_open x && (sx_f (x_e x) =? f)%N && agrees_upto (x_e x) (seen ++ [p])) xs
+              then first_dead f xs (seen ++ [p]) r else Some (fst p)
+  end.
+Inductive dkind := DUnexpected (f : name) | DAdditional (f : name) (nth : N) | DParamName (f p : name) | DParamValue (f p : name)
+                 | DParamMissing (f : name) | DNotFulfilled | DOutOfOrder.
+Definition deviation (f : name) (ps : list (name * pv)) (xs : list mexp) : dkind * bool :=
+  if negb (existsb (fun x => x_open x && (sx_f (x_e x) =? f)%N) xs) then
+    let n := fold_right (fun x a => if (sx_f (x_e x) =? f)%N then (x_done x + a)%N else a) 0%N xs in
+    (if (0 <? n)%N then DAdditional f (n + 1)%N else DUnexpected f, false)
+  else match first_dead f xs [] ps with
+       | Some p => (if existsb (fun x => (sx_f (x_e x) =? f)%N && existsb (fun q => (fst q =? p)%N) (sx_ps (x_e x))) xs
+                    then DParamValue f p else DParamName f p, false)
+       | None => (DParamMissing f, true)
+       end.
+(* the expected observation: failing operation index + diagnosis, values returned *)
+Fixpoint m_calls (ign : bool) (known : name -> bool) (xs : list mexp) (order : N) (i : N) (pending : option dkind)
+                 (cs : list scall) (rets : list (option pv)) : option (N * dkind) * list (option pv) :=
+  match pending with
+  | Some d => (Some (i, d), rev rets)
+  | None =>
+    match cs with
+    | [] => if existsb x_open xs then (Some (i, DNotFulfilled), rev rets)
+            else if existsb x_ooo xs then (Some (i, DOutOfOrder), rev rets)
+            else (None, rev rets)
+    | c :: r =>
+        if ign && negb (known (sc_f c)) then m_calls ign known xs order (i + 1)%N None r (if sc_want c then None :: rets else rets)
+        else match consume (sc_f c) (sc_ps c) (order + 1)%N xs with
+             | Some (xs', v) => m_calls ign known xs' (order + 1)%N (i + 1)%N None r (if sc_want c then v :: rets else rets)
+             | None => let (d, deferred) := deviation (sc_f c) (sc_ps c) xs in
+                       if deferred && negb (sc_want c) then m_calls ign known xs (order + 1)%N (i + 1)%N (Some d) r rets
+                       else (Some (i, d), rev rets)
+             end
+    end
+  end.
+Definition expected (k : canon) : option (N * dkind) * list (option pv) :=
+  let i0 := ((if k_strict k then 1 else 0) + (if k_ignore k then 1 else 0) + N.of_nat (length (k_exps k)))%N in
+  m_calls (k_ignore k) (fun f => existsb (fun e => (sx_f e =? f)%N) (k_exps k)) (init_m (k_strict k) 0 (k_exps k)) 0 i0 None (k_calls k) [].
+
+Definition dkind_of (k : fkind) : option dkind :=
+  match k with
+  | FUnexpectedCall f => Some (DUnexpected f) | FAdditionalCall f n => Some (DAdditional f n)
+  | FParamName f p => Some (DParamName f p) | FParamValue f p => Some (DParamValue f p)
+  | FParamMissing f _ => Some (DParamMissing f) | FNotFulfilled => Some DNotFulfilled | FOutOfOrder => Some DOutOfOrder
+  | FObjectMissing _ | FCannotHappen => None
+  end.
+Definition dkind_eqb (a b : dkind) : bool :=
+  match a, b with
+  | DUnexpected f, DUnexpected g => (f =? g)%N
+  | DAdditional f n, DAdditional g m => (f =? g)%N && (n =? m)%N
+  | DParamName f p, DParamName g q | DParamValue f p, DParamValue g q => (f =? g)%N && (p =? q)%N
+  | DParamMissing f, DParamMissing g => (f =? g)%N
+  | DNotFulfilled, DNotFulfilled | DOutOfOrder, DOutOfOrder => true
+  | _, _ => false
+  end.
+Definition opt_pv_eqb (a b : option pv) : bool :=
+  match a, b with Some x, Some y => pv_eqb x y | None, None => true | _, _ => false end.
+Fixpoint list_eqb {A} (eqb : A -> A -> bool) (a b : list A) : bool :=
+  match a, b with [] , [] => true | x :: a', y :: b' => eqb x y && list_eqb eqb a' b' | _, _ => false end.
+
+(* spec: (1) the scenario passes iff the multisets (strict: the sequences) agree; (2) a failure is the first deviation, once,
+   with the matching diagnosis; (3) every call returns the value of the expectation it consumed *)
+Definition spec (ops : list op) (o : obs) : bool :=
+  match parse ops with
+  | None => true
+  | Some k =>
+      if negb (judged k) then true else
+      let (ef, er) := expected k in
+      Bool.eqb (match o_fail o with None => true | Some _ => false end) (verdict_ok k)
+      && match o_fail o, ef with
+         | None, None => true
+         | Some (i, fl), Some (j, d) => (i =? j)%N && match dkind_of (f_kind fl) with Some d' => dkind_eqb d' d | None => false end
+         | _, _ => false
+         end
+      && list_eqb opt_pv_eqb (o_rets o) er
+  end.
